@@ -8,6 +8,7 @@ import (
 	"io"
 	"strings"
 	"testing"
+	"time"
 
 	"verif/harness/ast"
 	"verif/harness/gen"
@@ -31,6 +32,8 @@ type ownedReader struct {
 	pos       int
 	failAt    int  // -1: never; otherwise Read fails once pos has reached failAt
 	failData  bool // deliver the last bytes together with the error
+	transient bool // the error is returned once; later reads succeed again
+	failed    bool
 	barriers  []int
 	bi        int
 	onBarrier func(k int)
@@ -42,7 +45,8 @@ func (r *ownedReader) Read(p []byte) (int, error) {
 	if len(p) == 0 {
 		return 0, nil
 	}
-	if r.failAt >= 0 && r.pos >= r.failAt {
+	if r.failAt >= 0 && r.pos >= r.failAt && !(r.transient && r.failed) {
+		r.failed = true
 		return 0, errInjected
 	}
 	for r.bi < len(r.barriers) && r.pos >= r.barriers[r.bi] {
@@ -58,7 +62,7 @@ func (r *ownedReader) Read(p []byte) (int, error) {
 	if r.bi < len(r.barriers) && r.barriers[r.bi] < limit {
 		limit = r.barriers[r.bi]
 	}
-	if r.failAt >= 0 && r.failAt < limit {
+	if r.failAt >= 0 && r.failAt < limit && !(r.transient && r.failed) {
 		limit = r.failAt
 	}
 	n := len(p)
@@ -80,7 +84,8 @@ func (r *ownedReader) Read(p []byte) (int, error) {
 	}
 	copy(p, r.data[r.pos:r.pos+n])
 	r.pos += n
-	if r.failData && r.failAt >= 0 && r.pos >= r.failAt {
+	if r.failData && r.failAt >= 0 && r.pos >= r.failAt && !(r.transient && r.failed) {
+		r.failed = true
 		return n, errInjected
 	}
 	return n, nil
@@ -117,6 +122,7 @@ type C03Case struct {
 	Chunks   []int  `json:"chunks"` // read sizes, cycled (empty = as large as asked)
 	FailAt   int    `json:"fail_at"`
 	FailData bool   `json:"fail_data,omitempty"`
+	Transient bool  `json:"transient,omitempty"` // the reader fails once and then goes on delivering
 	Prog     int    `json:"prog"`
 	Barrier  bool   `json:"barrier"` // check incrementality with barriers
 	What     string `json:"what"`
@@ -184,7 +190,7 @@ func c03Check(c *C03Case) string {
 		return s
 	}
 	var out bytes.Buffer
-	rd := &ownedReader{data: data, chunks: c.Chunks, failAt: -1, failData: c.FailData}
+	rd := &ownedReader{data: data, chunks: c.Chunks, failAt: -1, failData: c.FailData, transient: c.Transient}
 	if ioFault {
 		rd.failAt = c.FailAt
 	}
@@ -289,9 +295,98 @@ func genChunks(t *rapid.T, n int) []int {
 	}
 }
 
+// ---- the same through the binary: values arrive one at a time on stdin or through a FIFO ------------
+
+type C03CLI struct {
+	Values []string `json:"values"` // JSON texts, written one at a time, each followed by a newline
+	Fifo   bool     `json:"fifo"`
+	Prog   int      `json:"prog"`
+}
+
+// c03CLIOnce feeds the values one by one. It returns stalledAt >= 0 if the output
+// of value stalledAt had not appeared after the patience although the value and a
+// following byte had been written, and whether the complete output was right in the end.
+func c03CLIOnce(c *C03CLI, patience time.Duration) (stalledAt int, finalOK bool, detail string, conclusive bool) {
+	p := c03Programs[c.Prog]
+	var args []string
+	for _, s := range p.sels {
+		args = append(args, "-r", s)
+	}
+	args = append(args, "--", p.src)
+	st, err := run.StartStream(args, c.Fifo)
+	if err != nil {
+		return -1, false, err.Error(), false
+	}
+	want := p.begin
+	stalledAt = -1
+	for k, v := range c.Values {
+		u, ok := c03Unit(p, v)
+		if !ok {
+			st.Kill()
+			return -1, false, "unit failed", false
+		}
+		u = strings.TrimSuffix(strings.TrimPrefix(u, p.begin), p.end)
+		if c.Fifo {
+			// with a named file $file is the FIFO's name
+			u = strings.ReplaceAll(u, " f\n", " in.fifo\n")
+		} else {
+			u = strings.ReplaceAll(u, " f\n", " <stdin>\n")
+		}
+		want += u
+		if err := st.Write([]byte(v + "\n")); err != nil {
+			break
+		}
+		if !st.WaitOutput(len(want), patience) && stalledAt < 0 {
+			stalledAt = k
+			detail = fmt.Sprintf("value %d (%s) and the newline after it were written; after %v its output had not appeared (so far: %q)", k+1, clip(v), patience, clip(string(st.Output())))
+		}
+	}
+	want += p.end
+	exit, out, stderr, ok := st.Finish(20 * time.Second)
+	if !ok {
+		return stalledAt, false, "the binary did not exit after its input was closed", false
+	}
+	finalOK = exit == 0 && string(out) == want
+	if !finalOK && detail == "" {
+		detail = fmt.Sprintf("exit %d, stdout %q, want %q, stderr %q", exit, clip(string(out)), clip(want), clip(string(stderr)))
+	}
+	return stalledAt, finalOK, detail, true
+}
+
+// c03CLICheck: a stall counts only if it is reproduced with a long patience and
+// the missing output does appear once later input / end of input is supplied -
+// i.e. the output of a value demonstrably waited for something after it.
+func c03CLICheck(c *C03CLI) (msg string, conclusive bool) {
+	stalled, finalOK, detail, ok := c03CLIOnce(c, 3*time.Second)
+	if !ok {
+		return "", false
+	}
+	if stalled < 0 {
+		if !finalOK {
+			return "fed value by value, the binary's complete output is wrong: " + detail, true
+		}
+		return "", true
+	}
+	// confirm twice with more patience
+	for try := 0; try < 2; try++ {
+		s2, f2, d2, ok2 := c03CLIOnce(c, 10*time.Second)
+		if !ok2 {
+			return "", false
+		}
+		if s2 < 0 {
+			return "", false // it was just slow: inconclusive
+		}
+		stalled, finalOK, detail = s2, f2, d2
+	}
+	if finalOK {
+		return "the output of a value is held back until later input (or end of input) arrives: " + detail + "; once the input was closed the complete output was right", true
+	}
+	return "stalled and wrong: " + detail, true
+}
+
 func TestC03(t *testing.T) {
 	rec := start(t, "C03", "fault_enumeration",
-		"streams of 0-6 generated JSON values (top-level arrays, objects and scalars) joined by random legal separators (none where legal), read through a harness-owned io.Reader under a chunking schedule (1-byte reads, fixed and random chunk sizes, one big read) by 9 programs (per-value stateless tracers with and without selectors, and programs that never look at the input: BEGIN-only, END-only, empty). Per stream, every fault position is enumerated: truncation at every byte, a read error at every byte (alone, and delivered together with the last bytes), and (sampled) single-byte corruption at every byte by 6 replacement bytes plus stray ] } , x between values. Oracles: (1) reference splitter = value-after-value decoding of the delivered bytes as a whole; (2) composition: output = BEGIN ++ out(v1) ++ ... ++ out(vn) ++ END with out(vi) the implementation's own output on the single value; with a fault after value j: JsonError naming the file, output = BEGIN ++ out(v1..vj), no END, no rule on the partial value; (3) identical results for every chunking; (4) incrementality: the reader withholds every byte beyond end(vk)+1 and, when asked for more, checks that out(v1..vk) is already written. Non-trivial: >= 2 values and (a chunk boundary inside a value, a fault, or a barrier after a top-level scalar). distinct = distinct (delivered bytes, schedule, fault, program).")
+		"streams of 0-6 generated JSON values (top-level arrays, objects and scalars) joined by random legal separators (none where legal), read through a harness-owned io.Reader under a chunking schedule (1-byte reads, fixed and random chunk sizes, one big read) by 9 programs (per-value stateless tracers with and without selectors, and programs that never look at the input: BEGIN-only, END-only, empty). Per stream, every fault position is enumerated: truncation at every byte, a read error at every byte (persistent, delivered together with the last bytes, and one-off with the reader recovering afterwards), and (sampled) single-byte corruption at every byte by 6 replacement bytes plus stray ] } , x between values. Oracles: (1) reference splitter = value-after-value decoding of the delivered bytes as a whole; (2) composition: output = BEGIN ++ out(v1) ++ ... ++ out(vn) ++ END with out(vi) the implementation's own output on the single value; with a fault after value j: JsonError naming the file, output = BEGIN ++ out(v1..vj), no END, no rule on the partial value; (3) identical results for every chunking; (4) incrementality: the reader withholds every byte beyond end(vk)+1 and, when asked for more, checks that out(v1..vk) is already written. A sample goes through the binary: values are written one at a time to its stdin or to a FIFO named as the input file, and each value's output must arrive before the next value is written (a stall counts only when reproduced twice with 10 s patience and the output does appear once the input is closed; otherwise it is inconclusive). Non-trivial: >= 2 values and (a chunk boundary inside a value, a fault, or a barrier after a top-level scalar). distinct = distinct (delivered bytes, schedule, fault, program).")
 	defer rec.Finish()
 	rec.Assume("the JSON grammar itself is not under test: encoding/json, used non-incrementally on the whole byte slice, is the reference splitter; the streaming loop around the decoder is what is checked")
 	rec.Assume("with a read error directly after a top-level scalar (no following byte delivered) the scalar may or may not count as complete")
@@ -305,10 +400,49 @@ func TestC03(t *testing.T) {
 		}
 		return nil
 	})
+	rec.Replayer("cli-stream", func(raw stdjson.RawMessage) error {
+		var c C03CLI
+		if err := stdjson.Unmarshal(raw, &c); err != nil {
+			return err
+		}
+		if m, _ := c03CLICheck(&c); m != "" {
+			return fmt.Errorf("%s", m)
+		}
+		return nil
+	})
 	if rec.ReplayOnly() {
 		return
 	}
 	rec.ReplayTier()
+
+	if run.CLIBinary() != "" {
+		inconclusive := 0
+		check(rec, "cli-stream", scale(10, 300), func(rt *rapid.T) {
+			n := rapid.IntRange(1, 4).Draw(rt, "nvalues")
+			c := &C03CLI{Fifo: rapid.Bool().Draw(rt, "fifo"), Prog: rapid.SampledFrom([]int{0, 1, 2, 3}).Draw(rt, "prog")}
+			o := gen.DocOpts{Depth: 1, MaxItems: 3, SafeStr: true, SmallNums: true, Keys: []string{"a", "b"}}
+			for k := 0; k < n; k++ {
+				var v *jsonx.Val
+				if rapid.Bool().Draw(rt, "scalar") {
+					v = gen.JSONScalar(o).Draw(rt, "sv")
+				} else {
+					v = gen.JSONDoc(o).Draw(rt, "dv")
+				}
+				c.Values = append(c.Values, gen.Compact(v))
+			}
+			msg, conclusive := c03CLICheck(c)
+			if !conclusive {
+				inconclusive++
+				rec.Discard("binary too slow or could not be started (inconclusive)")
+				return
+			}
+			rec.Case(fmt.Sprintf("cli %v %v %d", c.Values, c.Fifo, c.Prog), n >= 2, "cli-stream", fmt.Sprintf("fifo-%v", c.Fifo))
+			if msg != "" {
+				rec.Pending("cli-stream", c, c03Programs[c.Prog].src, msg)
+				rt.Fatalf("%s", msg)
+			}
+		})
+	}
 
 	maxEnum := 60
 	if evThorough() {
@@ -321,7 +455,7 @@ func TestC03(t *testing.T) {
 		try := func(c *C03Case, labels ...string) {
 			msg := c03Check(c)
 			nt := nvals >= 2
-			rec.Case(fmt.Sprintf("%q|%v|%d|%v|%d|%v", string(c.Data), c.Chunks, c.FailAt, c.FailData, c.Prog, c.Barrier), nt, labels...)
+			rec.Case(fmt.Sprintf("%q|%v|%d|%v|%v|%d|%v", string(c.Data), c.Chunks, c.FailAt, c.FailData, c.Transient, c.Prog, c.Barrier), nt, labels...)
 			rec.Sample(func() interface{} {
 				return map[string]interface{}{"bytes": string(c.Data), "chunks": c.Chunks, "fail_at": c.FailAt, "what": c.What, "program": c03Programs[c.Prog].src}
 			})
@@ -341,6 +475,7 @@ func TestC03(t *testing.T) {
 				if k > 0 {
 					try(&C03Case{Data: ast.BS(stream), Chunks: chunks, FailAt: k, FailData: true, Prog: prog, What: fmt.Sprintf("read error delivered with the bytes up to %d", k)}, "read-error-with-data")
 				}
+				try(&C03Case{Data: ast.BS(stream), Chunks: chunks, FailAt: k, Transient: true, Prog: prog, What: fmt.Sprintf("one-off read error at byte %d (the reader recovers)", k)}, "read-error-transient")
 			}
 			rec.Label("positions-enumerated")
 		} else {
